@@ -48,7 +48,7 @@ CHECK = {
         suite("cfg", "c02", 300, 3000, stdin=True, args=["-suite", "cfg"], timeout={"quick": 300, "thorough": 900}),
     ],
     "gen": [{"pkg": "extract_c02", "out": "lean/ClusterVerif/Gen/C02.lean"}],
-    "lean_sources": ["ClusterVerif/Model/C02Source.lean", "ClusterVerif/Gen/C02.lean", "ClusterVerif/Model/C02.lean", "ClusterVerif/Spec/C02.lean", "ClusterVerif/Lemmas/C02.lean", "ClusterVerif/Lemmas/C02Compose.lean", "ClusterVerif/Model/C02Ctx.lean", "ClusterVerif/Lemmas/C02Ctx.lean", "ClusterVerif/Model/C02Hooks.lean"],
+    "lean_sources": ["ClusterVerif/Model/C02Source.lean", "ClusterVerif/Gen/C02.lean", "ClusterVerif/Model/C02.lean", "ClusterVerif/Spec/C02.lean", "ClusterVerif/Lemmas/C02.lean", "ClusterVerif/Lemmas/C02Compose.lean", "ClusterVerif/Model/C02Ctx.lean", "ClusterVerif/Lemmas/C02Ctx.lean", "ClusterVerif/Model/C02Hooks.lean", "ClusterVerif/Model/C02Keys.lean", "ClusterVerif/Lemmas/C02Keys.lean"],
     "rule": "set: 2-3 real go-ds-crdt replicas, 2-12 puts/deletes/batches over 1-3 keys, scripted deliveries (old, repeated, newest-first), "
             "final full exchange; thorough: every third case delivers a <=5-delta history to a third replica in the k-th of all permutations. "
             "batch: one real crdt.Consensus, batching off / size 1,2,3,5 / age 60ms, queue 50 or size..size+2, bursts against a worker held inside "
@@ -69,6 +69,7 @@ CHECK = {
                      "libp2p/gossipsub delivery and signature checking, ipfs-lite block exchange (net and comp suites)",
                      "local-publish detection by call stack (addDAGNode), DAG-node capture and head-put capture in the datastore wrapper (comp suite)",
                      "reading the registered validator out of go-libp2p-pubsub v0.4.1 by reflection; pubsub's own signature check is not exercised (val suite)",
+                     "State.Add writes Put(key(pin.Cid), ProtoMarshal(pin)) with the cid inside the value (read; observed by every batch/comp/net case through Track vs List)",
                      "hook suite: raw writes through Consensus.VerifRawPut/VerifRawDelete (/repo/consensus/crdt/verif_export_c02b.go), pin content identified by its Name"],
     "extra": [_rerun_before_report],
     "assumptions": ["value convergence is claimed under (H1) no delta puts a key twice and (H2) the greatest (priority,value) of a member key "
@@ -112,8 +113,19 @@ META = {
             "'accepted => committed across Shutdown' is refuted, and what is lost is proved to be a suffix of the accepted operations (no hole, no "
             "reordering). New suites on the real code: hook (raw puts/deletes incl. undecodable values, values carrying another or no cid, foreign keys, "
             "deletes of absent keys: tracker calls and State.List after every step), cfg (Config.LoadJSON + batchingEnabled on boundary values), shut "
-            "(Shutdown with an open batch, restart on the same datastore).",
+            "(Shutdown with an open batch, restart on the same datastore). "
+            "Round 8c: who can write an inconsistent entry. Proved for every history of local batches of LogPin/LogUnpin operations and merges of "
+            "deltas written by peers running this code (any order, ids, priorities, batch boundaries): every stored (key,value) is a State.Add pair "
+            "(cid key, value carrying the key's cid), and every hook fired is well-formed, which discharges the hypothesis of the hook theorems for "
+            "the quantifier of the property; one foreign delta refutes it for arbitrary writers. The dsstate key namespace is modelled (key = "
+            "namespace + cid key, unkey looks at the last component only, List filters by prefix and skips bad keys/values, Get reads key(c) "
+            "only): round trip and injectivity proved for every namespace; 'List shows only what Get can read' is refuted by a nested foreign key "
+            "(model only, no suite drives such a key). The batch driver now RUNS the context model: the state layer it uses is derived from the "
+            "regenerated context uses, the worker's take is Ctx.addOk of the queued item's context, so a context-honouring layer is a model arm "
+            "(dropped items predicted) instead of only a decide fact. After a failed commit the worker keeps the batch and commits it with the next "
+            "item; the driver cuts an observation at the worker's open batch (the former K05d2 shape was an observation of a batch that was "
+            "neither full nor old).",
     "note": "Trusted: Lean kernel, hand-written model/spec, harness (datastore wrapper, broadcaster, value numbering), pubsub in the net suite. "
             "Known findings K05/K05b/K05c/K05d are dependency defects (go-ds-crdt v0.1.21), each with a proved witness and a narrow signature.",
-    "technique": "go/ast translators (hook bodies as an interpreted statement language; batchingEnabled/Validate as comparison tables; context uses of the state layer and the worker's context wiring) related to the model by theorems for all inputs / decide / rfl + regenerated source text of the anchored functions checked against the transcribed snapshot (rfl) + Lean 4 theorems over a replicated-set model and a batching-worker step model + differential correspondence on real go-ds-crdt replicas and a real crdt.Consensus",
+    "technique": "driver-interpreted context layer derived from the regenerated context uses + go/ast translators (hook bodies as an interpreted statement language; batchingEnabled/Validate as comparison tables; context uses of the state layer and the worker's context wiring) related to the model by theorems for all inputs / decide / rfl + regenerated source text of the anchored functions checked against the transcribed snapshot (rfl) + Lean 4 theorems over a replicated-set model and a batching-worker step model + differential correspondence on real go-ds-crdt replicas and a real crdt.Consensus",
 }
